@@ -27,7 +27,7 @@
 namespace {
 
 struct Action { int kind; long arg; bool m0; };
-enum { A_SUB, A_UNSUBS, A_UNSUBH, A_MUTE, A_UNMUTE, A_INVAL, A_MUTESELF, A_INVALSELF, A_NOTIFY };
+enum { A_SUB, A_UNSUBS, A_UNSUBH, A_MUTE, A_UNMUTE, A_INVAL, A_MUTESELF, A_INVALSELF, A_NOTIFY, A_NOTIFYX };
 using Script = std::vector<Action>;
 
 bool parseScript(const std::string &tok, Script &out) {
@@ -40,6 +40,7 @@ bool parseScript(const std::string &tok, Script &out) {
         if (t == "ms") out.push_back({A_MUTESELF, 0, false});
         else if (t == "is") out.push_back({A_INVALSELF, 0, false});
         else if (t == "nt") out.push_back({A_NOTIFY, 0, false});
+        else if (t.rfind("nx", 0) == 0) out.push_back({A_NOTIFYX, num(2), false});
         else if (t.rfind("us", 0) == 0) out.push_back({A_UNSUBS, num(2), false});
         else if (t.rfind("uh", 0) == 0) out.push_back({A_UNSUBH, num(2), false});
         else if (t.rfind("mu", 0) == 0) out.push_back({A_MUTE, num(2), false});
@@ -231,6 +232,16 @@ struct Universe final : IUniverse {
                         ++fuelLeft;
                     }
                     break;
+                case A_NOTIFYX: {
+                    // another Subject of the same signature is notified from inside this round, with the values received
+                    auto it = subjects.find(a.arg);
+                    if (fuelLeft > 0 && it != subjects.end() && it->second.alive) {
+                        --fuelLeft;
+                        it->second.p->notify(args...);
+                        ++fuelLeft;
+                    }
+                    break;
+                }
             }
         }
         --info->running;
